@@ -294,7 +294,16 @@ def run_C14(rep, tier, rng):
     valid, mal = text_stream(rng, nv, nm)
     # conflicts and validation errors are the paths that iterate hash collections
     conflicty = [gen.render(gen.random_grammar(rng, max_nt=4, max_t=3, maxlen=4)) for _ in range(nv)]
-    texts = corpus("C14") + valid + conflicty + mal
+    # statically invalid files, in particular with several violations of one kind in one scope (which one is
+    # reported must not depend on a hash order)
+    invalid = []
+    while len(invalid) < nv:
+        base = gen.random_grammar(rng, names=rng.choice(["plain", "adversarial"]), payload="mixed", derive=False)
+        r = gen.multi_violation(base, rng) if len(invalid) % 3 else gen.inject_violation(base, rng)
+        if r:
+            r2 = gen.inject_violation(r[0], rng) if rng.random() < 0.3 else None
+            invalid.append(gen.render((r2 or r)[0]))
+    texts = corpus("C14") + valid + conflicty + invalid + mal
     reqs = [kv.hexs(t) for t in texts]
     a = kv.run_impl("repeat", reqs)            # 10 runs, 8 of them in fresh threads
     procs = 4 if tier == "quick" else 12
@@ -315,7 +324,7 @@ def run_C14(rep, tier, rng):
     pairs, dis = compare_stage_runs(rep, texts[:200], "C14")
     report_disagreements(rep, dis, "stages", "C14_perm")
     return {"evaluations": len(texts) * (10 + procs), "distinct_nontrivial": kv.distinct_count([t for t in texts if len(t) > 3]),
-            "rule": f"each text through generate 10× in one process (8 fresh threads) and once in each of {procs} further processes (fresh RandomState keys); results compared byte for byte (RustSrc) / structurally (canonical print of KikiErr incl. conflict payload and machine)",
+            "rule": f"valid, conflicting, statically invalid (incl. several violations of one kind in one scope) and malformed texts; each text through generate 10× in one process (8 fresh threads) and once in each of {procs} further processes (fresh RandomState keys); results compared byte for byte (RustSrc) / structurally (canonical print of KikiErr incl. conflict payload and machine)",
             "samples": sample(conflicty), "outcome_kinds": kinds, "model_disagreements": len(dis)}
 
 
@@ -1627,6 +1636,11 @@ def run_C10(rep, tier, rng):
             if r:
                 items, lab = r
                 labels.append(lab)
+        if len(cases) % 6 == 5:
+            # several violations of one kind in one scope: which one is reported depends on the visiting order
+            r = gen.multi_violation(base, rng)
+            if r:
+                items, labels = r[0], [r[1]]
         cases.append((items, labels))
     texts = [gen.render(it, rng if rng.random() < 0.3 else None) for it, _ in cases]
     pairs, dis = compare_stage_runs(rep, corpus("C10") + texts, "C10", keys={"ast", "file"} | set(VALIDATION_ERRS))
